@@ -95,6 +95,24 @@ Theorem C11_in_reads_never_killed :
 Proof. exact in_reads_never_killed. Qed.
 Print Assumptions C11_in_reads_never_killed.
 
+(* ---- reconnection ---- *)
+
+(* A reconnect leaves nothing of the previous connection behind (finding C11.F47
+   repaired: reconnect() used to keep inbuffer, outbuffer and the EAGAIN count):
+   after ANY history that left the driver alive -- a half-sent message in the
+   out-buffer, the beginning of a line in the in-buffer, 121 EAGAINs counted --
+   the driver continues on the new socket exactly as a fresh driver would.  All
+   the per-connection theorems above and below therefore hold for every
+   connection of the driver's life (wire, taken, received, delivered are the
+   observations of the current connection). *)
+Theorem C11_reconnect_fresh :
+  forall M decode ws (parse : str -> res M) sep tr1 tr2,
+  dead (run_trace M decode ws parse sep (init M) tr1) = None ->
+  run_trace M decode ws parse sep (init M) (tr1 ++ EvReconnect :: tr2) =
+  run_trace M decode ws parse sep (init M) tr2.
+Proof. exact reconnect_fresh. Qed.
+Print Assumptions C11_reconnect_fresh.
+
 (* ---- outgoing ---- *)
 
 (* Full statement (finding C11.F11 repaired: the out-buffer holds the unsent
